@@ -94,7 +94,35 @@ func notationRelation(ns []Notation, path string) (explicit, foldOnly, skipRelat
 }
 
 func init() {
-	judges = append(judges, localisationJudge)
+	judges = append(judges, localisationJudge, selfJudgeC14)
+}
+
+// selfJudgeC14 judges the implementation's observation alone: a crash, a hang, or a non-zero exit
+// without any diagnostic violates C14 whatever the model says.
+func selfJudgeC14(root string, c GCase, rep *CaseReport) []Judgement {
+	if judgeProp != "C14" || rep == nil {
+		return nil
+	}
+	var out []Judgement
+	switch rep.CLI.Class {
+	case "panic":
+		site := "unknown"
+		for _, l := range strings.Split(rep.CLI.Stderr, "\n") {
+			if strings.HasPrefix(l, "github.com/reedom/convergen/") {
+				site = strings.TrimPrefix(strings.SplitN(l, "(", 2)[0], "github.com/reedom/convergen/")
+				break
+			}
+		}
+		out = append(out, Judgement{Property: "C14", Case: c.Name, Key: "C14|panic|" + site,
+			What: "convergen crashed: " + firstLine(rep.CLI.Stderr) + " at " + site})
+	case "timeout":
+		out = append(out, Judgement{Property: "C14", Case: c.Name, Key: "C14|timeout", What: "convergen did not terminate within 60 s"})
+	case "error":
+		if strings.TrimSpace(rep.CLI.Stderr) == "" {
+			out = append(out, Judgement{Property: "C14", Case: c.Name, Key: "C14|silent-failure", What: "non-zero exit without any message on stderr"})
+		}
+	}
+	return out
 }
 
 // localisationJudge attributes model/implementation differences to judgeProp.
